@@ -112,7 +112,7 @@ static void run_big(const struct ecimpl *im, int len, int w, int start_aligned)
 {
 	char key[256];
 	int k = BIG_K, rows = w;
-	uint8_t *src[40], *dst[RMAX];
+	uint8_t *src[256], *dst[RMAX];
 	size_t tbl_bytes = im->gfni && im->level < 0 ? (size_t)8 * k * rows : ec_tbl_size(k, rows);
 	uint8_t *tbl = g_alloc(tbl_bytes, G_END);
 	for (int i = 0; i < k * rows; i++)
@@ -353,6 +353,22 @@ int main(int argc, char **argv)
 					BIG_K = 3;
 					v_nontrivial(v_mix(ii + 4500, wv));
 				}
+		/* (e3) very wide and medium-long for the high-level entries: k = 171 / 200 / 255 sources (a table row group no longer fits a 32 KiB L1
+		 * way), 4 / 7 / 10 rows, blocks of 8 KiB .. 32 KiB: cache-blocking decisions keyed on k AND len together */
+		if (!im->width) {
+			static const int wk[] = { 171, 200, 255 }, wr[] = { 4, 7, 10 }, wl[] = { 8192, 8229, 32768 + 5 };
+			for (int a = 0; a < 3; a++)
+				for (int b = 0; b < 3; b++)
+					for (int c = 0; c < 3; c++)
+						if (v_mine(unit++)) {
+							if (v_deadline_hit() || nfail > 60)
+								goto out;
+							BIG_K = wk[a];
+							run_big(im, wl[c], wr[b], (a + b + c) & 1);
+							BIG_K = 3;
+							v_nontrivial(v_mix(ii + 4700, a * 9 + b * 3 + c));
+						}
+		}
 		/* (d) the complete multiplication table through this kernel: k=1, c=0..255, every byte value in main loop and tail */
 		if (v_mine(unit++)) {
 			uint8_t *save = M[0];
